@@ -37,6 +37,21 @@ type Req struct {
 	// ToGoHTML: instead of an HTTP request the component is rendered with templ.ToGoHTML, which
 	// uses the same byte-buffer pool as the buffered handler.
 	ToGoHTML bool `json:"to_go_html"`
+	// CtxDone: the request's context is cancelled (as a timeout middleware does when its deadline
+	// passes) at the point where the component fails - or, for a render that does not fail, before
+	// its last chunk. The client stays connected.
+	CtxDone bool `json:"ctx_done,omitempty"`
+}
+
+type cancelKeyT struct{}
+
+// withCancel is the middleware that owns the request context and lets the component cancel it.
+func withCancel(h http.Handler) http.Handler {
+	return http.HandlerFunc(func(w http.ResponseWriter, r *http.Request) {
+		ctx, cancel := context.WithCancel(r.Context())
+		defer cancel()
+		h.ServeHTTP(w, r.WithContext(context.WithValue(ctx, cancelKeyT{}, cancel)))
+	})
 }
 
 type Case struct {
@@ -45,7 +60,7 @@ type Case struct {
 
 var rec = ev.New("C11", "c11.handler",
 	"histories of 1..12 requests against templ.Handler (and renders through templ.ToGoHTML, which shares its buffer pool) with generated configuration (status unset/200/201/404/500, content type, error handler none / header+body / body only / nothing / status only, streaming on/off) and a component that writes k chunks "+
-		"(0..64KiB, alphabet disjoint from every error text) then fails or not, via httptest.ResponseRecorder and via a real loopback net/http server; buffered oracle: success => configured status+content type+exact document; failure => exactly the default 500 message or exactly the error handler's response, no document byte, "+
+		"(0..64KiB, alphabet disjoint from every error text) then fails or not - in a quarter of the requests with the request's context cancelled at that moment, as a timeout middleware does -, via httptest.ResponseRecorder and via a real loopback net/http server; buffered oracle: success => configured status+content type+exact document; failure => exactly the default 500 message or exactly the error handler's response, no document byte, "+
 		"never the configured success status. Non-trivial = failure after >=1 chunk, or a success following a failure in the same history; distinct by request configuration + position")
 
 var errCause = errors.New("component failed deliberately")
@@ -54,15 +69,25 @@ const defaultMsg = "templ: failed to render template\n"
 
 func component(r Req) templ.Component {
 	return templ.ComponentFunc(func(ctx context.Context, w io.Writer) error {
+		done := func() {
+			if c, ok := ctx.Value(cancelKeyT{}).(context.CancelFunc); ok && r.CtxDone {
+				c()
+			}
+		}
 		for i, ch := range r.Chunks {
 			if r.FailAfter == i {
+				done()
 				return errCause
+			}
+			if r.FailAfter < 0 && i == len(r.Chunks)-1 {
+				done()
 			}
 			if _, err := io.WriteString(w, ch); err != nil {
 				return err
 			}
 		}
 		if r.FailAfter >= len(r.Chunks) {
+			done()
 			return errCause
 		}
 		return nil
@@ -104,7 +129,7 @@ func handlerFor(r Req, comp templ.Component, sawErr *error) http.Handler {
 			})
 		}))
 	}
-	return templ.Handler(comp, opts...)
+	return withCancel(templ.Handler(comp, opts...))
 }
 
 func doc(r Req) string { return strings.Join(r.Chunks, "") }
@@ -271,6 +296,7 @@ var genReq = rapid.Custom(func(t *rapid.T) Req {
 	if rapid.Bool().Draw(t, "fails") {
 		r.FailAfter = rapid.IntRange(0, len(r.Chunks)).Draw(t, "failAfter")
 	}
+	r.CtxDone = !r.ToGoHTML && rapid.IntRange(0, 3).Draw(t, "ctxDone") == 0
 	return r
 })
 
@@ -289,6 +315,9 @@ func TestPropHandler(t *testing.T) {
 			kind := "buffered"
 			if r.Stream {
 				kind = "streaming"
+			}
+			if r.CtxDone {
+				rec.Class("request context cancelled during the render")
 			}
 			if fails(r) {
 				rec.Class(kind + "-failure-eh-" + r.EH)
